@@ -27,17 +27,28 @@ EXTENDS Integers, Sequences, FiniteSets, TLC, Json, SequencesExt
 Methods == {"GET", "POST", "DELETE", "PUT"}
 Creds   == {"none", "empty", "wrong", "otherLive", "correct"}
 Basics  == {"none", "wrongUser", "wrongPw", "correct"}
-VStates == {"fresh", "loggedIn", "deleted"}
+(* Life cycle of the victim session V.  An ENDED session is looked up in two *)
+(* different ways (ircserver.getSessionLocked compares the id with the last  *)
+(* processed message): "quitLast" = V ended with its own QUIT line and       *)
+(* nothing newer has been processed since -> ErrSessionNotYetSeen;           *)
+(* "deleted" = V ended and a later entry was processed (or it was ended by a *)
+(* DeleteSession entry, which is newer than V itself) -> ErrNoSuchSession.   *)
+VStates == {"fresh", "loggedIn", "quitLast", "deleted"}
+(* The session N that gets the NEXT session id (ids are predictable: raft    *)
+(* last index + 1): absent while a request naming it arrives, possibly       *)
+(* created -- and given traffic -- while that request is in flight.          *)
+NStates == {"absent", "live"}
 
 (* Whom a public request addresses: the victim V, an id that never was a    *)
 (* session and is older than the last processed message, an id from the     *)
 (* future, or something ParseUint rejects.                                  *)
-Targets == {"V", "never", "notyet", "garbage"}
+Targets == {"V", "never", "notyet", "garbage", "next"}
 
-SessStateOf(target, vs) ==
+SessStateOf(target, vs, ns) ==
     CASE target = "V"       -> vs
       [] target = "never"   -> "neverExisted"
       [] target = "notyet"  -> "notYetSeen"
+      [] target = "next"    -> IF ns = "absent" THEN "notYetSeen" ELSE "fresh"
       [] OTHER              -> "unparsable"
 
 (* Path shapes below the public prefix /robustirc/v1/ (<sid> = target).     *)
@@ -77,7 +88,7 @@ PrivatePaths == PrivateGet \cup PrivatePost \cup {"/raft/AppendEntries", "/raft/
 PublicReq ==
     { r \in [disp : {"public"}, method : Methods, shape : PublicShapes, target : Targets,
              cred : Creds, basic : {"none", "correct"}] :
-        /\ (r.target # "V" => r.cred # "correct")      \* no such secret exists
+        /\ (r.target # "V" => r.cred # "correct")      \* no such secret exists / is known
         /\ (r.shape = "session" => r.target = "V") }   \* target is irrelevant there
 
 PrivateReq ==
@@ -89,19 +100,19 @@ Requests == PublicReq \cup PrivateReq
 
 (* ------------------------------ decisions ------------------------------- *)
 (* api.session(): order of the tests as in the code.                        *)
-SessionCheck(target, vs, cred) ==
+SessionCheck(target, vs, ns, cred) ==
     IF target = "garbage" THEN "parse"
     ELSE IF cred \in {"none", "empty"} THEN "noheader"
-    ELSE IF target = "notyet" THEN "notyetseen"
-    ELSE IF target = "never" \/ vs = "deleted" THEN "nosuch"
-    ELSE IF cred = "correct" THEN "ok"
-    ELSE "badauth"
+    ELSE IF target = "notyet" \/ (target = "next" /\ ns = "absent") \/ (target = "V" /\ vs = "quitLast") THEN "notyetseen"
+    ELSE IF target = "never" \/ (target = "V" /\ vs = "deleted") THEN "nosuch"
+    ELSE IF cred = "correct" /\ target = "V" THEN "ok"
+    ELSE "badauth"         \* includes every credential for the live N: nobody but N's client has its secret
 
 Resp(status, effect, discloses) == [status |-> status, effect |-> effect, discloses |-> discloses]
 NotFound == Resp("404", "none", FALSE)
 
-DecidePublic(r, vs) ==
-    LET sc == SessionCheck(r.target, vs, r.cred) IN
+DecidePublic(r, vs, ns) ==
+    LET sc == SessionCheck(r.target, vs, ns, r.cred) IN
     CASE r.method = "POST" /\ r.shape = "session" ->
             Resp("200", "create", FALSE)              \* public by design: new session, new secret
       [] r.method = "POST" /\ r.shape = "sid/message" ->
@@ -134,36 +145,79 @@ DecidePrivate(r) ==
     IF r.basic # "correct" THEN Resp("401", "none", FALSE)   \* before any dispatch
     ELSE DecidePrivateAuthed(r)
 
-Decide(r, vs) == IF r.disp = "public" THEN DecidePublic(r, vs) ELSE DecidePrivate(r)
+Decide(r, vs, ns) == IF r.disp = "public" THEN DecidePublic(r, vs, ns) ELSE DecidePrivate(r)
 
-(* V's life cycle: which correctly authenticated requests move it.          *)
-(* The replay posts "NICK/USER" for the fresh victim's accepted POST when   *)
-(* it wants to log in; a plain accepted POST keeps the state.               *)
-NextV(r, vs, resp, login) ==
+(* V's life cycle: which correctly authenticated requests move it.  kind =  *)
+(* what the accepted POST carries: a plain line, the line that completes the *)
+(* login (USER after NICK), or QUIT.                                         *)
+Kinds == {"plain", "login", "quit"}
+NextV(r, vs, resp, kind) ==
     IF r.disp = "public" /\ r.target = "V" /\ resp.effect = "delete" THEN "deleted"
-    ELSE IF r.disp = "public" /\ r.target = "V" /\ resp.effect = "post" /\ vs = "fresh" /\ login THEN "loggedIn"
+    ELSE IF r.disp = "public" /\ r.target = "V" /\ resp.effect = "post" /\ kind = "quit" THEN "quitLast"
+    ELSE IF r.disp = "public" /\ r.target = "V" /\ resp.effect = "post" /\ vs = "fresh" /\ kind = "login" THEN "loggedIn"
     ELSE vs
 
+IsNext(r) == r.disp = "public" /\ r.target = "next"
+
 (* ------------------------------ behaviour ------------------------------- *)
-VARIABLES vstate, last
-vars == <<vstate, last>>
+VARIABLES vstate,    \* life cycle of V
+          nstate,    \* does the session with the next id exist yet
+          inflight,  \* a request naming N that arrived while N was absent, not yet answered
+          last       \* the last answered request with its answer
+vars == <<vstate, nstate, inflight, last>>
 None == [none |-> TRUE]
 
-Init == vstate = "fresh" /\ last = None
+Init == vstate = "fresh" /\ nstate = "absent" /\ inflight = None /\ last = None
 
 (* A request whose predecessor did not move V leads to a state that differs *)
 (* from that predecessor only in `last`; its successors would be the same   *)
 (* ones again, so only Init and the states right after a life-cycle change  *)
 (* are expanded.  Every (victim state, request) pair is still generated.    *)
-Request(r, login) ==
-    LET resp == Decide(r, vstate) IN
-    /\ IF last = None THEN TRUE ELSE last.vs # vstate
-    /\ last' = [req |-> r, vs |-> vstate, resp |-> resp]
-    /\ vstate' = NextV(r, vstate, resp, login)
+Expandable == inflight = None /\ (IF last = None THEN TRUE ELSE last.vs # vstate)
 
-Next == \E r \in Requests :
-          \E login \in (IF r.disp = "public" /\ r.method = "POST" /\ r.shape = "sid/message" /\ vstate = "fresh"
-                         THEN BOOLEAN ELSE {FALSE}) : Request(r, login)
+Request(r, kind) ==
+    LET resp == Decide(r, vstate, nstate) IN
+    /\ Expandable
+    /\ IsNext(r) => vstate = "fresh"                  \* V is irrelevant for N: one representative
+    /\ last' = [req |-> r, vs |-> vstate, ns |-> nstate, phase |-> "static", resp |-> resp]
+    /\ vstate' = NextV(r, vstate, resp, kind)
+    /\ UNCHANGED <<nstate, inflight>>
+
+(* Something newer than the ended V is processed: from now on lookups of V  *)
+(* answer "no such session".                                                *)
+LaterEntry ==
+    /\ Expandable /\ vstate = "quitLast"
+    /\ vstate' = "deleted" /\ last' = None
+    /\ UNCHANGED <<nstate, inflight>>
+
+(* The dispatcher decides when the request ARRIVES (session() is evaluated  *)
+(* once, at the top of the handler); nothing re-examines the session later. *)
+Arrive(r) ==
+    /\ Expandable /\ last = None /\ vstate = "fresh" /\ nstate = "absent"
+    /\ IsNext(r)
+    /\ inflight' = [req |-> r, resp |-> Decide(r, vstate, nstate)]
+    /\ UNCHANGED <<vstate, nstate, last>>
+
+(* N is created (POST .../session by its owner) and gets traffic.           *)
+Appear ==
+    /\ nstate = "absent" /\ (inflight # None \/ (last = None /\ vstate = "fresh"))
+    /\ nstate' = "live"
+    /\ UNCHANGED <<vstate, inflight, last>>
+
+Complete ==
+    /\ inflight # None
+    /\ last' = [req |-> inflight.req, vs |-> vstate, ns |-> nstate, phase |-> "inflight", resp |-> inflight.resp]
+    /\ inflight' = None
+    /\ UNCHANGED <<vstate, nstate>>
+
+Next ==
+    \/ \E r \in Requests :
+          \E kind \in (IF r.disp = "public" /\ r.method = "POST" /\ r.shape = "sid/message" /\ r.target = "V"
+                        THEN Kinds ELSE {"plain"}) : Request(r, kind)
+    \/ LaterEntry
+    \/ \E r \in Requests : Arrive(r)
+    \/ Appear
+    \/ Complete
 
 Spec == Init /\ [][Next]_vars
 
@@ -183,16 +237,33 @@ PrivateNeedsPasswordOn(req, resp) ==
 PasswordIsNoSecretOn(req, resp) ==
     (req.disp = "public" /\ req.cred # "correct" /\ req.shape # "session") => resp.effect = "none" /\ ~resp.discloses
 
+(* "is refused": a request on a session route without the correct secret of *)
+(* a LIVE addressed session is never answered 2xx -- whatever state the     *)
+(* session is in (fresh, ended, ended long ago, not there yet, appearing    *)
+(* while the request is in flight).                                         *)
+Is2xx(st) == st \in {"200", "201", "202", "204"}
+RefusedIsNot2xxOn(req, vs, resp) ==
+    (req.disp = "public" /\ req.shape # "session"
+        /\ ~(req.cred = "correct" /\ req.target = "V" /\ vs \in {"fresh", "loggedIn"}))
+    => ~Is2xx(resp.status)
+
 EffectNeedsSecret    == last # None => EffectNeedsSecretOn(last.req, last.vs, last.resp)
 PrivateNeedsPassword == last # None => PrivateNeedsPasswordOn(last.req, last.resp)
 PasswordIsNoSecret   == last # None => PasswordIsNoSecretOn(last.req, last.resp)
+RefusedIsNot2xx      == last # None => RefusedIsNot2xxOn(last.req, last.vs, last.resp)
 
-TypeOK == vstate \in VStates
+TypeOK == vstate \in VStates /\ nstate \in NStates
 
 (* ------------------------------- export --------------------------------- *)
-Row(r, vs) == [req |-> r, vs |-> vs, sessState |-> IF r.disp = "public" THEN SessStateOf(r.target, vs) ELSE "n/a",
-               resp |-> Decide(r, vs)]
-Table == { Row(r, vs) : r \in Requests, vs \in VStates }
+Row(r, vs, ns, phase) ==
+    [req |-> r, vs |-> vs, ns |-> ns, phase |-> phase,
+     sessState |-> IF r.disp = "public" THEN SessStateOf(r.target, vs, ns) ELSE "n/a",
+     \* an in-flight request is decided on arrival (N absent), whatever happens before the answer
+     resp |-> Decide(r, vs, IF phase = "inflight" THEN "absent" ELSE ns)]
+Table ==
+    { Row(r, vs, "absent", "static") : r \in {q \in Requests : ~IsNext(q)}, vs \in VStates }
+    \cup { Row(r, "fresh", ns, "static") : r \in {q \in Requests : IsNext(q)}, ns \in NStates }
+    \cup { Row(r, "fresh", "live", "inflight") : r \in {q \in Requests : IsNext(q)} }
 
 Export ==
     /\ TLCGet("distinct") > 0
